@@ -122,12 +122,20 @@ static void draw_check (pixman_glyph_cache_t *c, vf_rng *r)
     /* a projective source whose w changes sign inside the destination has coordinates outside 16.16: pixman_image_composite32 refuses such a request
      * (documented behaviour, see C08) while the glyph entry points do not analyse extents at all; that regime is outside the statement and not generated */
     if (q1.src.tr_class == TR_PROJECTIVE) rq_gen_transform (r, &q1.src, TR_AFFINE, 0);
+    /* every other draw repeats the previous call's operator, destination format and first glyph with the OTHER kind of source (solid after an
+     * image, an image after solid): whatever a call remembers about its routine must not leak into the next */
+    static int have_last, last_solid, last_first = -1; static pixman_op_t last_op; static pixman_format_code_t last_dfmt; int repeat_last = 0;
+    if (have_last && vf_chance (r, 1, 2)) { repeat_last = 1; q1.dst.fmt = last_dfmt; q1.dst.n_clip = 0;
+        if (last_solid) { if (q1.src.kind != RQ_BITS) { q1.src.kind = RQ_BITS; q1.src.fmt = PIXMAN_a8r8g8b8; q1.src.w = 16; q1.src.h = 8; q1.src.repeat = PIXMAN_REPEAT_NORMAL; q1.src.tr_class = TR_NONE; pixman_transform_init_identity (&q1.src.tr); q1.src.filter = PIXMAN_FILTER_NEAREST; q1.src.n_params = 0; q1.src.alpha_map = 0; } }
+        else { q1.src.kind = RQ_SOLID; q1.src.solid.alpha = (uint16_t)(vf_next (r) | 0x8000); q1.src.solid.red = (uint16_t)(vf_next (r) % (q1.src.solid.alpha + 1u)); q1.src.solid.green = q1.src.solid.red / 2; q1.src.solid.blue = (uint16_t)(vf_next (r) % (q1.src.solid.alpha + 1u)); q1.src.n_clip = 0; } }
     q1.dst.neg = 0; q2 = q1;
     vf_rng r1 = *r, r2 = *r;
     if (!rq_build (&q1, &r1)) return; if (!rq_build (&q2, &r2)) { rq_free (&q1); return; }
     int n = (int)vf_range (r, 1, 6); pixman_glyph_t gl[6]; int gk[6];
     for (int i = 0; i < n; i++) { gk[i] = cand[vf_next (r) % nc]; gl[i].glyph = ent[gk[i]].handle; gl[i].x = (int)vf_range (r, -6, q1.dst.w + 4); gl[i].y = (int)vf_range (r, -4, q1.dst.h + 3); }
     pixman_op_t op = vf_chance (r, 1, 2) ? PIXMAN_OP_OVER : vf_chance (r, 1, 2) ? PIXMAN_OP_ADD : (pixman_op_t)(vf_next (r) % 14);
+    if (repeat_last) { op = last_op; if (last_first >= 0 && last_first < nkeys && ent[last_first].live) gk[0] = last_first, gl[0].glyph = ent[last_first].handle; vf_count ("draws_repeating_the_previous_call", 1); }
+    have_last = 1; last_op = op; last_dfmt = q1.dst.fmt; last_solid = q1.src.kind == RQ_SOLID; last_first = gk[0];
     int sx = (int)vf_range (r, -3, 5), sy = (int)vf_range (r, -2, 3), dx = (int)vf_range (r, -3, 3), dy = (int)vf_range (r, -2, 2);
     int with_mask = vf_chance (r, 1, 2);
     static const pixman_format_code_t mfs[] = { PIXMAN_a8, PIXMAN_a8, PIXMAN_a8r8g8b8, PIXMAN_a8r8g8b8, PIXMAN_a1, PIXMAN_a4, PIXMAN_a8r8g8b8_sRGB, PIXMAN_a8b8g8r8, PIXMAN_a4r4g4b4, PIXMAN_a2r10g10b10 };
